@@ -91,6 +91,7 @@ EXPECT = [
     ("views listed (and deleted) recordings of synaptic", ["C19", "C08"]), ("views ignored trainables", ["C19"]),
     ("parameters shared across the view boundary", ["C19"]), ("removable singularity", ["C19", "C08", "C18"]),
     ("data_set() with an array", ["C10"]), ("lost its parameter sharing", ["C19"]),
+    ("not one entire branch", ["C13", "C19"]), ("left a broken synapse type behind", ["C19"]),
 ]
 
 
